@@ -38,6 +38,10 @@ def _arr(a):
     return ('A', a.dtype.str, a.shape, hashlib.sha1(np.ascontiguousarray(a).tobytes()).hexdigest())
 
 
+class Cache(dict):
+    """Snapshots of already-cached lazy values: compared on the keys present before AND after."""
+
+
 _LAZY = {}
 
 
@@ -110,17 +114,31 @@ def snap(o, depth=0):
         from photutils.aperture import Aperture
         from photutils.segmentation import SegmentationImage
         if isinstance(o, Aperture):
+            try:
+                bb = repr(o.bbox)
+            except Exception:
+                bb = 'n/a'
             return ('Ap', type(o).__name__, snap(o.positions, depth + 1),
-                    tuple((p, snap(getattr(o, p), depth + 1)) for p in o._params))
+                    tuple((p, snap(getattr(o, p), depth + 1)) for p in o._params), bb)
         if isinstance(o, SegmentationImage):
             return ('Seg', snap(o._data, depth + 1))
         items = []
+        cache = Cache()
         lazy = _lazy_names(type(o))
         for k in sorted(getattr(o, '__dict__', {})):
             v = o.__dict__[k]
-            if isinstance(v, (np.ndarray, Table, NDData)) and k not in lazy:
+            if k in lazy:
+                # values already cached by a lazyproperty (e.g. a detection catalog whose properties
+                # were read by the caller): filling a cache is not a modification, CHANGING a value
+                # that is already there is
+                # (public names only: underscore caches are the object's scratch space, e.g. the work
+                # apertures of SourceCatalog._fluxfrac_optimizer_args whose radius is varied by design)
+                if not k.startswith('_') and (isinstance(v, (np.ndarray, Table))
+                                              or (isinstance(v, (list, tuple)) and len(v) < 200)):
+                    cache[k] = snap(v, depth + 1)
+            elif isinstance(v, (np.ndarray, Table, NDData)):
                 items.append((k, snap(v, depth + 1)))
-        return ('obj', type(o).__name__, tuple(items))
+        return ('obj', type(o).__name__, tuple(items), cache)
     if isinstance(o, (list, tuple)):
         return ('L', type(o).__name__, tuple(snap(x, depth + 1) for x in o))
     if isinstance(o, dict):
@@ -132,7 +150,15 @@ def diff(a, b, path=''):
     """First difference between two snapshots as a short text (None if equal)."""
     if a == b:
         return None
-    if type(a) != type(b) or not isinstance(a, tuple) or len(a) != len(b) or (a and b and a[0] != b[0]):
+    if isinstance(a, Cache) and isinstance(b, Cache):
+        for k in a:
+            if k in b and a[k] != b[k]:
+                d = diff(a[k], b[k], f'{path}.<cached>{k}')
+                if d is not None:
+                    return d
+        return None
+    if (type(a) != type(b) or not isinstance(a, tuple) or len(a) != len(b)
+            or (a and b and isinstance(a[0], str) and a[0] != b[0])):
         return f'{path}: {str(a)[:80]} -> {str(b)[:80]}'
     tag = a[0] if a and isinstance(a[0], str) else ''
     names = {'MA': ['', 'data', 'mask', 'fill_value', 'hardmask', 'unit'],
@@ -140,17 +166,22 @@ def diff(a, b, path=''):
              'ND': ['', 'data', 'mask', 'uncertainty', 'unit', 'meta'],
              'T': ['', 'class', 'colnames', 'columns', 'meta'],
              'M': ['', 'class', 'param_names', 'parameters', 'fixed', 'bounds', 'tied', 'arrays', 'submodels'],
-             'Ap': ['', 'class', 'positions', 'params'], 'Seg': ['', 'data'], 'K': ['', 'class', 'array']}.get(tag, [])
+             'Ap': ['', 'class', 'positions', 'params', 'bbox'], 'Seg': ['', 'data'], 'K': ['', 'class', 'array']}.get(tag, [])
+    only_cache_growth = False
     for i, (x, y) in enumerate(zip(a, b)):
         if x != y:
             nm = names[i] if i < len(names) else str(i)
             if (isinstance(x, tuple) and isinstance(y, tuple) and len(x) == 2 and len(y) == 2
                     and isinstance(x[0], str) and x[0] == y[0] and isinstance(x[1], tuple)):
-                return diff(x[1], y[1], f'{path}.{x[0]}')      # (name, snapshot) pair
-            if isinstance(x, tuple) and isinstance(y, tuple):
-                return diff(x, y, f'{path}.{nm}')
-            return f'{path}.{nm}: {str(x)[:60]} -> {str(y)[:60]}'
-    return f'{path}: differ'
+                d = diff(x[1], y[1], f'{path}.{x[0]}')      # (name, snapshot) pair
+            elif isinstance(x, (tuple, Cache)) and isinstance(y, (tuple, Cache)):
+                d = diff(x, y, f'{path}.{nm}')
+            else:
+                d = f'{path}.{nm}: {str(x)[:60]} -> {str(y)[:60]}'
+            if d is not None:
+                return d
+            only_cache_growth = True      # the only change below was a newly filled cache
+    return None if only_cache_growth else f'{path}: differ'
 
 
 # ==========================================================================
@@ -200,6 +231,15 @@ class Env:
 
     def unwatch(self, name):
         self.objs.pop(name, None)
+
+    def compare_table(self, name, new):
+        """A table produced again by a caller-supplied object must equal the one produced before."""
+        d = diff(snap(self.objs[name]), snap(new), name)
+        if d is not None:
+            self.report(f'{self.name}:{name}:changed', f'{self.name}: `{name}` of a caller-supplied object differs '
+                        f'from what it returned before the calls ({d})',
+                        {'scenario': self.name, 'variant': self.v, 'seed': self.seed, 'label': name, 'object': name,
+                         'difference': d, 'outcome': 'returned', 'cmd': 'bin/check C10 --replay <this file>'})
 
     # ---- builders ----
     def plain_image(self, cond=None, sigma=1.6, bkg=5.0, noise=0.5):
@@ -733,7 +773,18 @@ def s_catalog(E):
     if E.v['bkg'] == 'array':
         kw['background'] = E.like('background', np.full(E.shape, 4.0))
     if E.v['det'] == 'detcat':
-        kw['detection_cat'] = E.reg('detection_cat', SourceCatalog(np.where(np.isfinite(E.plain), E.plain, 0), segm))
+        # a detection catalog is a caller-supplied object: the caller has already read its
+        # properties (they are cached), and its cached values / to_table() must not change
+        detcat = SourceCatalog(np.where(np.isfinite(E.plain), E.plain, 0), segm)
+        with warnings.catch_warnings():
+            warnings.simplefilter('ignore')
+            for nm_ in list(detcat.properties) + ['kron_aperture', 'fluxfrac_radius']:
+                try:
+                    getattr(detcat, nm_)
+                except Exception:
+                    pass
+            E.reg('detection_cat.to_table', detcat.to_table())
+        kw['detection_cat'] = E.reg('detection_cat', detcat)
     cat = E.call('init', lambda: SourceCatalog(data, segm, error=error, mask=mask, localbkg_width=int(E.v['lbw']),
                                                apermask_method=E.v['aperm'], **kw))
     if cat is None:
@@ -752,6 +803,15 @@ def s_catalog(E):
     E.call('circular_photometry', lambda: cat.circular_photometry(4.0))
     E.call('fluxfrac_radius', lambda: cat.fluxfrac_radius(0.5))
     E.call('make_kron_apertures', lambda: cat.make_kron_apertures())
+    # non-default Kron parameters: a minimum (unscaled) Kron radius above the measured ones, and
+    # the 3-element form with a minimum circular radius
+    for kp in ((2.5, 6.0), (2.5, 1.4, 2.0), (3.0, 0.1, 0.0)):
+        E.call(f'kron_photometry{kp}', lambda kp=kp: cat.kron_photometry(kp))
+        E.call(f'make_kron_apertures{kp}', lambda kp=kp: cat.make_kron_apertures(kron_params=kp))
+    E.call('fluxfrac_radius(0.9)', lambda: cat.fluxfrac_radius(0.9))
+    if E.v['det'] == 'detcat':
+        E.call('detection_cat.to_table', lambda: E.compare_table('detection_cat.to_table',
+                                                                   kw['detection_cat'].to_table()))
     E.call('make_circular_apertures', lambda: cat.make_circular_apertures(3.0))
     E.call('make_cutouts', lambda: cat.make_cutouts((11, 11)))
     E.call('getitem', lambda: cat[0].to_table())
@@ -813,6 +873,114 @@ def s_aperture_mask(E):
         E.call(f'get_values', lambda: m.get_values(data, mask=mask))
         E.call(f'to_image', lambda: m.to_image(E.shape))
         E.call(f'get_overlap_slices', lambda: m.get_overlap_slices(E.shape))
+
+
+def _agg_axes():
+    import matplotlib
+    matplotlib.use('Agg', force=True)
+    import matplotlib.pyplot as plt
+    fig, ax = plt.subplots()
+    return plt, fig, ax
+
+
+ORIGINS = ['zero', 'positive', 'negative', 'array']
+
+
+def _origin(E):
+    o = {'zero': (0, 0), 'positive': (3.5, 2.0), 'negative': (-4.0, -1.5), 'array': None}[E.v['origin']]
+    return E.reg('origin', np.array([2.0, 5.0])) if o is None else o
+
+
+@scenario('aperture_plotting', data=None, cond=None, mask=None, error=None, ap=APS, npos=['scalar', 'multi'],
+          origin=ORIGINS, method=METHODS)
+def s_aperture_plotting(E):
+    """Apertures are caller-supplied objects: plotting, patch / region / mask conversion and the
+    geometric properties must leave positions and shape parameters (and hence bbox) unchanged,
+    also when called repeatedly with a non-default origin."""
+    from photutils import aperture as A
+    pos = (12.3, 9.6) if E.v['npos'] == 'scalar' else [(12.3, 9.6), (20.0, 15.5), (3.0, 4.0)]
+    ap = {'circle': lambda: A.CircularAperture(pos, r=4.3),
+          'ellipse': lambda: A.EllipticalAperture(pos, 5.0, 3.0, theta=0.4),
+          'rect': lambda: A.RectangularAperture(pos, 6.0, 4.0, theta=0.3),
+          'cannulus': lambda: A.CircularAnnulus(pos, 3.0, 6.0),
+          'eannulus': lambda: A.EllipticalAnnulus(pos, 3.0, 6.0, 4.0, theta=0.2),
+          'rannulus': lambda: A.RectangularAnnulus(pos, 3.0, 6.0, 4.0, theta=0.2)}[E.v['ap']]()
+    E.reg('aperture', ap)
+    E.reg('aperture._positions', ap._positions)
+    origin = _origin(E)
+    plt, fig, ax = _agg_axes()
+    try:
+        E.call('bbox', lambda: ap.bbox)
+        E.call('plot', lambda: ap.plot(ax=ax, origin=origin, color='r'))
+        E.call('plot_again', lambda: ap.plot(ax=ax, origin=origin))
+        E.call('_to_patch', lambda: ap._to_patch(origin=origin))
+        E.call('_define_patch_params', lambda: ap._define_patch_params(origin=origin, lw=2))
+        E.call('to_mask', lambda: ap.to_mask(method=E.v['method']))
+        E.call('area', lambda: ap.area)
+        E.call('copy', lambda: ap.copy())
+        E.call('eq', lambda: ap == ap.copy())
+        E.call('repr', lambda: (repr(ap), str(ap)))
+        E.call('aperture_to_region', lambda: A.aperture_to_region(ap))
+        E.call('getitem', lambda: ap[0] if E.v['npos'] == 'multi' else len(ap))
+        E.call('to_mask_to_image', lambda: (ap.to_mask()[0] if E.v['npos'] == 'multi' else ap.to_mask()).to_image((30, 30)))
+        E.call('plot_default_axes', lambda: ap.plot(origin=origin))
+    finally:
+        plt.close('all')
+
+
+@scenario('plot_helpers', data=PLAIN + ['quantity', 'masked'], cond=['clean', 'neg'], error=None, origin=ORIGINS)
+def s_plot_helpers(E):
+    """Plotting helpers of SegmentationImage, SourceCatalog, Background2D, the profile classes and
+    GriddedPSFModel on a matplotlib Agg axes, with non-default origins."""
+    from astropy.nddata import NDData
+    from photutils.segmentation import SourceCatalog
+    from photutils.background import Background2D
+    from photutils.profiles import RadialProfile
+    from photutils.psf import GriddedPSFModel
+    data, mask = E.data(), E.mask()
+    segm = _segm(E, E.plain)
+    if segm is None:
+        raise Skip('no segments')
+    E.reg('segment_img', segm)
+    origin = _origin(E)
+    plt, fig, ax = _agg_axes()
+    try:
+        E.call('segm.imshow', lambda: segm.imshow(ax=ax))
+        E.call('segm.imshow_map', lambda: segm.imshow_map(ax=ax))
+        E.call('segm.to_patches', lambda: segm.to_patches(origin=origin, scale=2.0))
+        labs = E.reg('labels_arg', np.array(segm.labels[:2]))
+        E.call('segm.plot_patches', lambda: segm.plot_patches(ax=ax, origin=origin, labels=labs))
+        cat = SourceCatalog(data, segm, mask=mask)
+        E.reg('catalog', cat)
+        E.call('cat.plot_kron_apertures', lambda: cat.plot_kron_apertures(ax=ax, origin=origin))
+        kp = E.reg('kron_params', (2.5, 6.0))
+        E.call('cat.plot_kron_apertures_params', lambda: cat.plot_kron_apertures(kron_params=kp, ax=ax, origin=origin))
+        E.call('cat.plot_circular_apertures', lambda: cat.plot_circular_apertures(4.0, ax=ax, origin=origin))
+        E.call('cat.kron_aperture', lambda: cat.kron_aperture)
+        aps = [a for a in cat.kron_aperture if a is not None]
+        if aps:
+            E.reg('kron_aperture0', aps[0])
+            E.call('kron_aperture.plot', lambda: aps[0].plot(ax=ax, origin=origin))
+        E.call('cat.plot_kron_apertures_again', lambda: cat.plot_kron_apertures(ax=ax, origin=origin))
+        E.call('cat[0].plot_kron_apertures', lambda: cat[0].plot_kron_apertures(ax=ax, origin=origin))
+        bkg = E.call('Background2D', lambda: Background2D(data, (10, 10), mask=mask))
+        if bkg is not None:
+            E.call('bkg.plot_meshes', lambda: bkg.plot_meshes(ax=ax, outlines=True))
+        radii = E.reg('radii', np.arange(0, 10.0))
+        rp = E.call('RadialProfile', lambda: RadialProfile(data, _xy(E)[0], radii, mask=mask))
+        if rp is not None:
+            E.call('rp.plot', lambda: rp.plot(ax=ax))
+            E.call('rp.plot_error', lambda: rp.plot_error(ax=ax))
+        yy, xx = np.mgrid[-12:13, -12:13] / 2.0
+        img = np.exp(-(xx ** 2 + yy ** 2) / (2 * 1.6 ** 2))
+        nd = E.reg('grid_nddata', NDData(np.array([img, img * 1.1, img * 0.9, img]),
+                                         meta={'grid_xypos': [(0, 0), (40, 0), (0, 40), (40, 40)], 'oversampling': 2}))
+        g = GriddedPSFModel(nd)
+        E.reg('gridded_psf', g)
+        E.call('plot_grid', lambda: g.plot_grid())
+        E.call('plot_grid_deltas', lambda: g.plot_grid(deltas=True, peak_norm=True))
+    finally:
+        plt.close('all')
 
 
 @scenario('ApertureStats', ap=APS, method=['exact', 'center', 'subpixel'], clip=['none', 'clip'],
@@ -1104,6 +1272,113 @@ def s_psf_model_evaluation(E):
     E.call('call_again', lambda: model(x, y))
 
 
+ND_UNC = ['none', 'nounit', 'equal', 'convertible', 'copy_false_equal', 'copy_false_convertible']
+
+
+# the full product (data unit) x (uncertainty unit / copy mode) x (uncertainty class) is enumerated: every
+# combination is visited in turn, and each NDData goes through EVERY NDData-accepting entry point
+ND_COMBOS = [f'{a}|{b}|{c}' for a in ('none', 'Jy') for b in ND_UNC for c in ('std', 'var', 'ivar')
+             if not (b == 'none' and c != 'std') and not (a == 'none' and 'convertible' in b)]
+ND_ENTRIES = ['psf', 'iterpsf', 'aperture_photometry', 'ApertureStats', 'Background2D', 'extract_stars']
+
+
+@scenario('nddata_entry_points', data=None, error=None, mask=['none', 'array', 'readonly'], combo=ND_COMBOS)
+def s_nddata(E):
+    E.v['unit'], E.v['unc'], E.v['unctype'] = E.v['combo'].split('|')
+    for entry in ND_ENTRIES:
+        E.objs.clear()
+        E.nrng = np.random.default_rng(E.seed)
+        _nddata_entry(E, entry)
+
+
+def _nddata_entry(E, entry):
+    """Every NDData-accepting entry point, with the uncertainty unit absent / equal to / different
+    from but convertible to the data unit, and the uncertainty built with copy=False from a
+    caller array: nddata.data / .mask / .uncertainty.array / .uncertainty.unit / .unit and the
+    arrays they were built from are all watched."""
+    import astropy.units as u
+    from astropy.nddata import NDData, StdDevUncertainty, VarianceUncertainty, InverseVariance
+    from astropy.table import Table, QTable
+    plain = E.plain_image()
+    E.plain = plain
+    dunit = None if E.v['unit'] == 'none' else u.Jy
+    arr = E.reg('data_array', plain.copy())
+    m = E.mask('mask_array')
+    unc = None
+    k = E.v['unc']
+    if k != 'none':
+        sig = 0.5 + 0.01 * np.sqrt(np.abs(np.where(np.isfinite(plain), plain, 0.0)))
+        cls = {'std': StdDevUncertainty, 'var': VarianceUncertainty, 'ivar': InverseVariance}[E.v['unctype']]
+        vals = {'std': sig, 'var': sig ** 2, 'ivar': 1.0 / sig ** 2}[E.v['unctype']]
+        uunit = None
+        if dunit is not None and k != 'nounit':
+            base = u.Jy if 'equal' in k else u.mJy
+            if base is u.mJy:
+                vals = vals * {'std': 1e3, 'var': 1e6, 'ivar': 1e-6}[E.v['unctype']]
+            uunit = {'std': base, 'var': base ** 2, 'ivar': 1 / base ** 2}[E.v['unctype']]
+        earr = E.reg('error_array', np.array(vals))
+        unc = cls(earr, unit=uunit, copy=not k.startswith('copy_false'))
+    nd = E.reg('nddata', NDData(arr, mask=m, uncertainty=unc, unit=dunit, meta={'who': 'caller'}))
+    pre = entry + '.'
+    _call = E.call
+    E.call = lambda label, thunk: _call(pre + label, thunk)
+    try:
+        _nddata_run(E, entry, nd, dunit)
+    finally:
+        del E.call
+
+
+def _nddata_run(E, entry, nd, dunit):
+    import astropy.units as u
+    from astropy.table import Table, QTable
+    if entry in ('psf', 'iterpsf'):
+        from photutils.psf import PSFPhotometry, IterativePSFPhotometry, CircularGaussianPRF
+        from photutils.detection import DAOStarFinder
+        model = E.reg('psf_model', CircularGaussianPRF(fwhm=3.8))
+        init = QTable() if dunit is not None else Table()
+        init['x'] = [s_[0] + 0.2 for s_ in E.stars]
+        init['y'] = [s_[1] - 0.1 for s_ in E.stars]
+        fl = np.array([s_[2] * 16 for s_ in E.stars])
+        init['flux'] = fl if dunit is None else fl * dunit
+        E.reg('init_params', init)
+        thr = 10.0 if dunit is None else 10.0 * dunit
+        if entry == 'psf':
+            phot = PSFPhotometry(model, (7, 7), finder=DAOStarFinder(thr, 3.5), aperture_radius=4.0)
+        else:
+            phot = IterativePSFPhotometry(model, (7, 7), DAOStarFinder(thr, 3.5), aperture_radius=4.0, maxiters=2)
+        E.call('call_init_params', lambda: phot(nd, init_params=init))
+        E.call('call_finder', lambda: phot(nd))
+        E.call('make_residual_image', lambda: phot.make_residual_image(nd, psf_shape=(9, 9)))
+    elif entry == 'aperture_photometry':
+        from photutils.aperture import aperture_photometry
+        ap = E.reg('aperture', _apertures(E, 'circle'))
+        E.call('call', lambda: aperture_photometry(nd, ap))
+        E.call('call_center', lambda: aperture_photometry(nd, [ap, ap], method='center'))
+    elif entry == 'ApertureStats':
+        from photutils.aperture import ApertureStats
+        ap = E.reg('aperture', _apertures(E, 'circle'))
+        st = E.call('init', lambda: ApertureStats(nd, ap))
+        if st is not None:
+            E.props(st, ['sum', 'sum_err', 'mean', 'median', 'std', 'centroid', 'fwhm', 'covariance'])
+            E.call('to_table', lambda: st.to_table())
+    elif entry == 'Background2D':
+        from photutils.background import Background2D
+        b = E.call('init', lambda: Background2D(nd, (10, 10)))
+        if b is not None:
+            E.props(b, ['background', 'background_rms', 'background_median'])
+    else:
+        from photutils.psf import extract_stars
+        t = Table()
+        t['x'] = [s_[0] for s_ in E.stars]
+        t['y'] = [s_[1] for s_ in E.stars]
+        E.reg('catalog', t)
+        stars = E.call('extract_stars', lambda: extract_stars(nd, t, size=11))
+        if stars is not None:
+            E.call('star_data', lambda: [(s_.data, s_.weights) for s_ in stars.all_stars])
+            # cutouts handed out by extract_stars: writing into a star must not reach the NDData
+            E.call('register_model_on_star', lambda: stars.all_stars[0].register_epsf)
+
+
 # ---------------- datasets ----------------
 @scenario('make_model_image', data=None, cond=None, mask=None, error=None, tbl=['Table', 'QTable', 'units'],
           model=['gauss', 'moffat', 'image'], opt=['shape', 'bbox'])
@@ -1235,8 +1510,12 @@ def run_scenario(name, variant, seed, report, stat=None, count=None):
 WEIGHT = {'isophote': 6, 'PSFPhotometry': 30, 'IterativePSFPhotometry': 14, 'psf_fitting_helpers': 14,
           'extract_stars_epsf': 16, 'SourceCatalog': 24, 'ApertureStats': 30, 'centroid_2dg': 30,
           'centroid_com': 30, 'SegmentationImage': 4, 'psf_models': 12, 'Background2D': 40,
-          'Background2D_blocks': 150, 'psf_model_evaluation': 90}
+          'Background2D_blocks': 150, 'psf_model_evaluation': 90,
+          'aperture_plotting': 48, 'plot_helpers': 10, 'nddata_entry_points': 52}
 DEFAULT_WEIGHT = 36
+
+
+ENUMERATE = {'nddata_entry_points': 'combo'}
 
 
 def variants_for(rng, name, n):
@@ -1248,6 +1527,9 @@ def variants_for(rng, name, n):
         v = {k: rng.choice(axes[k]) for k in keys}
         k = keys[i % len(keys)]
         v[k] = axes[k][(i // len(keys)) % len(axes[k])]
+        if name in ENUMERATE:           # an axis whose values are ALL visited, in order, whatever n
+            ax = ENUMERATE[name]
+            v[ax] = axes[ax][i % len(axes[ax])]
         out.append(v)
     return out
 
@@ -1593,8 +1875,8 @@ def static_obligations(ctx, found):
                     pairs.append((r['names'][pname], bool(sh)))
                     ctx.stat('observed_result_aliasing', f'{r["name"]}({pname})={"shares" if sh else "disjoint"}')
         r['observed'] = pairs
-        plist = '[' + '; '.join(f'{x}%nat' for x in r['params']) + ']'
-        olist = '[' + '; '.join(f'({p}%nat, {"true" if s else "false"})' for p, s in pairs) + ']'
+        plist = '[' + '; '.join(f'{x}%N' for x in r['params']) + ']'
+        olist = '[' + '; '.join(f'({p}%N, {"true" if s else "false"})' for p, s in pairs) + ']'
         terms.append(f'({plist}, {T.to_coq(r["prog"])}, true, {olist})')
         idx.append(i)
         ctx.count_case(['ir', r['name'], hashlib.sha1(terms[-1].encode()).hexdigest()], True)
